@@ -591,6 +591,60 @@ theorem C09_end_to_end_buffered (a : Args) (sb : ScriptB) (hh : NUL ∉ a.host)
     simp only [verdictOK, obsOf, toRes, hm, headB_dropped, beq_iff_eq] at hc
     exact absurd hc (by decide)
 
+/-! ### The relayed line, all three classes (round-4 seeds)
+
+`C09_end_to_end` speaks about a relayed `K` only. The fold `report()` makes of the recipient letter (`r`/`h`/`s`)
+and the message verdict (`K`/`Z`/`D`) decides between *retry* and *bounce* as well: qmail-remote, left without an
+accepted recipient, prints `s…` followed by `DGiving up on …`, and only `report()`'s `case 's': orr = 0` makes that
+pair the temporary failure the property demands for a 4xx reply to RCPT. -/
+
+/-- **The relayed verdict is the documented function of the server's replies.** For every server script the line
+qmail-rspawn's `report()` relays for qmail-remote's output starts with `relayClass (expect …)`: first (for the
+spawner: only) recipient refused with 4xx → `Z`, refused with 5xx → `D`, otherwise the class of the message verdict
+(`K` only if the rules say `K`; greeting/HELO trouble, 4xx to MAIL/DATA/the message and any lost connection → `Z`;
+5xx there → `D`). -/
+theorem C09_relay_class (a : Args) (sc : Script) (hh : NUL ∉ a.host) :
+    relayAsReplied (expect (abstr a sc)) (rreport 0 (render (smtpRun a sc))) = true := by
+  simp only [relayAsReplied, beq_iff_eq]
+  exact relay_class a sc hh
+
+/-- the same for `smtp()` with `blast()` over the 1024-byte buffer (label of a failing write computed) -/
+theorem C09_relay_class_buffered (a : Args) (sb : ScriptB) (hh : NUL ∉ a.host) :
+    relayAsReplied (expect (abstr a (toScript a sb))) (rreport 0 (renderB (smtpRunB a sb))) = true := by
+  rw [(C09_buffered_reports a sb).2.2.2]
+  exact C09_relay_class a (toScript a sb) hh
+
+theorem expData_rl (s : AScript) (rl : List Byte) (b : Bool) (cs : List Nat) : (expData s rl b cs).rl = rl := by
+  unfold expData
+  repeat (first | rfl | split)
+
+/-- `relayClass` spelled out for the spawner's case, one recipient (rule table only): greeting 220, HELO 250, MAIL
+accepted, reply `p` to the only RCPT — `p` ≥ 500 → `D`, 400..499 → `Z` **whatever follows** (qmail-remote's own
+message verdict is `D`, "Giving up", there), below 400 → the class of the message verdict. -/
+theorem C09_relay_rule_sole (s : AScript) (m p : Nat) (rest : List Nat)
+    (hc : s.codes = 220 :: 250 :: m :: p :: rest) (hm : m < 400) (hn : s.n = 1)
+    (hw : s.wfail = none ∨ s.wfail = some .quit) :
+    relayClass (expect s) = (if p ≥ 500 then cD else if p ≥ 400 then cZ else vLetter (expect s).v) ∧
+    (p ≥ 400 → (expect s).v = .D) := by
+  have he := expect_rcpts s m [p] rest (by simpa using hc) hm (by simp [hn])
+    (by rcases hw with h | h <;> simp [h]) (by rcases hw with h | h <;> simp [h])
+    (by intro j; rcases hw with h | h <;> simp [h])
+  have hrl : (expect s).rl = [clsLetter p] := by rw [he, expData_rl]; rfl
+  refine ⟨?_, ?_⟩
+  · simp only [relayClass, hrl, List.head?_cons, clsLetter]
+    by_cases h5 : p ≥ 500
+    · simp [h5, lH, lS]
+    · by_cases h4 : p ≥ 400
+      · simp [h5, h4]
+      · simp [h5, h4, lR, lS, lH]
+  · intro h4
+    have : ¬ p < 400 := by omega
+    rw [he]; simp [expData, this]
+
+/-- no recipient report (trouble before the first RCPT reply): the relayed class is that of the message verdict -/
+theorem C09_relay_rule_early (e : Exp) (h : e.rl = []) : relayClass e = vLetter e.v := by
+  simp [relayClass, h]
+
 /-! ### Non-vacuity -/
 
 /-- two recipients, the first refused (multi-line 550), the second accepted, message accepted -/
@@ -692,5 +746,15 @@ example : (toScript exArgs1 ⟨exOk1, .blast (failAt 0)⟩).wfail = some .final 
 set_option maxRecDepth 20000 in
 example : headB (rreport 0 (renderB (smtpRunB exArgs1 ⟨exOk1, .blast [2, 2]⟩))) = cK ∧
     (smtpRunB exArgs1 ⟨exOk1, .blast [2, 2]⟩).wire = fullCmds exArgs1 ++ lit "hi\r\n.\r\n" ++ quitCmd := by decide
+
+/- the spawner's case that round-4 seed m1 broke: one recipient, `450` to RCPT. qmail-remote prints `s…` and
+   `DGiving up on …`; the rules say recipient `s`, message `D`; the relayed line must be — and is — `Z` -/
+set_option maxRecDepth 20000 in
+example : (smtpRun exArgs1 ⟨lit "220 a\r\n250 b\r\n250 c\r\n450 greylisted\r\n", none⟩).rcpt.map headB = [lS] ∧
+    headB (smtpRun exArgs1 ⟨lit "220 a\r\n250 b\r\n250 c\r\n450 greylisted\r\n", none⟩).msg = cD ∧
+    headB (rreport 0 (render (smtpRun exArgs1 ⟨lit "220 a\r\n250 b\r\n250 c\r\n450 greylisted\r\n", none⟩))) = cZ ∧
+    relayClass (expect (abstr exArgs1 ⟨lit "220 a\r\n250 b\r\n250 c\r\n450 greylisted\r\n", none⟩)) = cZ := by decide
+set_option maxRecDepth 20000 in
+example : headB (rreport 0 (render (smtpRun exArgs1 ⟨lit "220 a\r\n250 b\r\n250 c\r\n550 no\r\n", none⟩))) = cD := by decide
 
 end Nq.Props.C09
